@@ -549,6 +549,13 @@ def _dump_completeness_rule(ctx):
     return r
 
 
+ACCEPTED_BUILDER_STORES = {
+    ("_create_section_from_dict", "title"): "a survey without a title gets its name as title; idempotent (recorded by sub-agents as a write into the caller's dict, harmless for rebuilds)",
+    ("_add_none_option_to_select_all_that_apply", "bind"): "add_none_option (legacy, recorded): the 'none' constraint is appended once (guarded by `none_choice not in choice_list`)",
+    ("_add_none_option_to_select_all_that_apply", "constraint"): "add_none_option (legacy, recorded): see above",
+}
+
+
 def builder_input_rule(ctx, prop, rid):
     """The dict a survey is built from belongs to the caller (ConvertResult._pyxform, a loaded JSON document, the value
     of to_json_dict()): building from it a second time, or dumping it afterwards, must see the same dict.  Decided as an
@@ -578,7 +585,30 @@ def builder_input_rule(ctx, prop, rid):
                 elif isinstance(x, ast.For) and isinstance(x.target, ast.Name) and x.target.id not in alias and isinstance(x.iter, ast.Name) and x.iter.id in alias:
                     alias.add(x.target.id)
                     changed = True
+        # `for x in d.get(KEY, ())` / `for x in d[KEY]`: x is a part of the parameter
+        for x in walk_own(fi.node):
+            if isinstance(x, ast.For) and isinstance(x.target, ast.Name) and x.target.id not in alias:
+                v = x.iter
+                while isinstance(v, ast.Subscript | ast.Attribute) or (isinstance(v, ast.Call) and isinstance(v.func, ast.Attribute) and v.func.attr in ("get", "setdefault", "values")):
+                    v = v.func.value if isinstance(v, ast.Call) else v.value
+                if isinstance(v, ast.Name) and v.id in alias:
+                    alias.add(x.target.id)
         for kind, tgt, node in writes_in(fi.node):
+            if kind == "store" and isinstance(tgt, ast.Subscript):
+                # a key written into the caller's definition: the same dict built again is no longer the same definition.
+                # Accepted (each confirmed by reading; keyed by method and folded key): the values written are functions of
+                # the dict itself and writing them twice changes nothing.
+                t = tgt
+                while isinstance(t, ast.Subscript | ast.Attribute):
+                    t = t.value
+                rn = t.id if isinstance(t, ast.Name) else None
+                if rn in alias:
+                    okk, kv = const_str(ctx, fi.module, tgt.slice)
+                    acc = ACCEPTED_BUILDER_STORES.get((fi.name, kv if okk else norm(tgt.slice)))
+                    n += 1
+                    r.check(acc is not None, f"{fi.qualname}:store {norm(tgt)[:40]}", f"accepted: {acc}" if acc else "the builder does not write into the dict it builds from", fi.loc(node),
+                            why_fail=f"`{norm(node)[:70]}` changes the caller's definition (via `{rn}`): the element objects already built from it and the next build disagree")
+                continue
             if kind == "del":
                 meth = "del"
             elif kind == "mutator" and node.func.attr in ("pop", "popitem", "clear"):
